@@ -152,8 +152,11 @@ def run_step(draw, j, nums, seen, db, prev_sw, excl, state):
     if err_kind == "basic":
         # the erroneous USER_PUNCH needs a number whose block may be (re)defined in that simulation
         cands = [n for n in NUMS if (n not in seen and n not in place) or err_sim == 0]
-        n_basic = draw(st.sampled_from(cands))
-        place.pop(n_basic, None)
+        if cands:
+            n_basic = draw(st.sampled_from(cands))
+            place.pop(n_basic, None)
+        else:
+            err_kind = "units"          # every candidate number is already in use: fall back to a parse error
     sims, dumps, so_opts = [], [], {}
     for k in range(nsim):
         P = []
